@@ -294,6 +294,17 @@ pub fn run_guarded(
             o.harness_error = Some(format!("{label}: {e}"));
             None
         }
-        Ok(Ok(x)) => Some(x),
+        Ok(Ok(x)) => {
+            if x.0.inner.lock().unwrap().deadline_hit {
+                o.violate(
+                    "run_ends_within_virtual_time_budget",
+                    site.to_string(),
+                    format!("{label}: the tracer was still running after three times the virtual time its round limit allows ({} rounds published, limit {:?}, max-round {:?}, read timeout {:?}); it was stopped by failing its socket calls", x.1.rounds.len(), tcfg.max_rounds, tcfg.max_round, tcfg.read_timeout),
+                    replay.clone(),
+                );
+                return None;
+            }
+            Some(x)
+        }
     }
 }
